@@ -12,10 +12,10 @@
 From Coq Require Import List Arith Bool.
 Import ListNotations.
 
-Inductive kind := Know | Klater | Kdeclared | Kundeclared | Kunknown.
-Inductive outcome := Outok | Outdeclared | Outundeclared.
-Inductive ecode := EDeclared | EUnknownFatal | EUnhandled.
-Inductive res := ROk (n : nat) | RDeclared | RUnknown | RUnhandled | RLost.
+Inductive kind := Know | Klater | Kdeclared | Ksub | Kfatal | Kundeclared | Kunknown.
+Inductive outcome := Outok | Outdeclared | Outsub | Outfatal | Outundeclared.
+Inductive ecode := EDeclared | EFatal | EUnknownFatal | EUnhandled.
+Inductive res := ROk (n : nat) | RDeclared | RFatal | RUnknown | RUnhandled | RLost.
 
 Inductive box :=
 | BCmd (tag call : nat) (k : kind)
@@ -23,7 +23,7 @@ Inductive box :=
 | BErr (tag n : nat) (c : ecode).
 
 Inductive op :=
-| OCall (p : bool) (k : kind)
+| OCall (p : bool) (k : kind) (follow : bool)   (* follow: the call's callback/errback issues one more call *)
 | ODeliver (d : bool) (n : nat)        (* deliver up to n boxes written by peer d *)
 | OFire (i : nat) (o : outcome)        (* the i-th pending responder answers *)
 | ODisc.                               (* the connection is lost *)
@@ -32,7 +32,9 @@ Inductive ev :=
 | EInvoke (p : bool) (call : nat)      (* responder for call runs at peer p *)
 | EFire (p : bool) (call : nat)
 | EResult (call : nat) (r : res)       (* the callRemote Deferred of call fired *)
+| ENested (call : nat)                 (* a callback / errback issued call [call] *)
 | ELost
+| EQuit                                (* the connection goes down because a peer closed it (QuitBox) *)
 | ENoop.
 
 Record st := mk {
@@ -41,25 +43,27 @@ Record st := mk {
   outA : list (nat * nat); outB : list (nat * nat);     (* _outstandingRequests: tag -> call, insertion order *)
   chA : list box; chB : list box;                       (* written by A / by B, undelivered *)
   pending : list (bool * nat * nat);                    (* responders yet to answer: (peer, tag, call) *)
-  ncalls : nat
+  ncalls : nat;
+  follows : list nat                                    (* ids of calls whose callback calls again *)
 }.
 
-Definition init : st := mk true 0 0 [] [] [] [] [] 0.
+Definition init : st := mk true 0 0 [] [] [] [] [] 0 [].
 
 Definition cnt s (p : bool) := if p then cntB s else cntA s.
 Definition outs s (p : bool) := if p then outB s else outA s.
 Definition chan s (p : bool) := if p then chB s else chA s.
 Definition set_cnt (p : bool) v s :=
-  if p then mk (up s) (cntA s) v (outA s) (outB s) (chA s) (chB s) (pending s) (ncalls s)
-  else mk (up s) v (cntB s) (outA s) (outB s) (chA s) (chB s) (pending s) (ncalls s).
+  if p then mk (up s) (cntA s) v (outA s) (outB s) (chA s) (chB s) (pending s) (ncalls s) (follows s)
+  else mk (up s) v (cntB s) (outA s) (outB s) (chA s) (chB s) (pending s) (ncalls s) (follows s).
 Definition set_outs (p : bool) v s :=
-  if p then mk (up s) (cntA s) (cntB s) (outA s) v (chA s) (chB s) (pending s) (ncalls s)
-  else mk (up s) (cntA s) (cntB s) v (outB s) (chA s) (chB s) (pending s) (ncalls s).
+  if p then mk (up s) (cntA s) (cntB s) (outA s) v (chA s) (chB s) (pending s) (ncalls s) (follows s)
+  else mk (up s) (cntA s) (cntB s) v (outB s) (chA s) (chB s) (pending s) (ncalls s) (follows s).
 Definition set_chan (p : bool) v s :=
-  if p then mk (up s) (cntA s) (cntB s) (outA s) (outB s) (chA s) v (pending s) (ncalls s)
-  else mk (up s) (cntA s) (cntB s) (outA s) (outB s) v (chB s) (pending s) (ncalls s).
-Definition set_pending v s := mk (up s) (cntA s) (cntB s) (outA s) (outB s) (chA s) (chB s) v (ncalls s).
-Definition set_ncalls v s := mk (up s) (cntA s) (cntB s) (outA s) (outB s) (chA s) (chB s) (pending s) v.
+  if p then mk (up s) (cntA s) (cntB s) (outA s) (outB s) (chA s) v (pending s) (ncalls s) (follows s)
+  else mk (up s) (cntA s) (cntB s) (outA s) (outB s) v (chB s) (pending s) (ncalls s) (follows s).
+Definition set_pending v s := mk (up s) (cntA s) (cntB s) (outA s) (outB s) (chA s) (chB s) v (ncalls s) (follows s).
+Definition set_ncalls v s := mk (up s) (cntA s) (cntB s) (outA s) (outB s) (chA s) (chB s) (pending s) v (follows s).
+Definition set_follows v s := mk (up s) (cntA s) (cntB s) (outA s) (outB s) (chA s) (chB s) (pending s) (ncalls s) v.
 
 Definition emit (p : bool) (b : box) s := set_chan p (chan s p ++ [b]) s.
 
@@ -75,7 +79,24 @@ Fixpoint remove_tag (tag : nat) (l : list (nat * nat)) : list (nat * nat) :=
   end.
 
 Definition res_of (c : ecode) : res :=
-  match c with EDeclared => RDeclared | EUnknownFatal => RUnknown | EUnhandled => RUnhandled end.
+  match c with EDeclared => RDeclared | EFatal => RFatal | EUnknownFatal => RUnknown | EUnhandled => RUnhandled end.
+
+Definition mem (i : nat) (l : list nat) : bool := existsb (Nat.eqb i) l.
+
+(** callRemote by peer p of a command whose responder behaves as k (_sendBoxCommand) *)
+Definition place (p : bool) (k : kind) (s : st) : st * list ev :=
+  let id := ncalls s in
+  let s0 := set_ncalls (S id) s in
+  if up s then
+    let tag := S (cnt s p) in
+    (emit p (BCmd tag id k) (set_outs p (outs s p ++ [(tag, id)]) (set_cnt p tag s0)), [])
+  else (s0, [EResult id RLost]).
+(** ... issued from inside a callback / errback *)
+Definition nested (p : bool) (s : st) : st * list ev :=
+  let '(s1, e) := place p Know s in (s1, ENested (ncalls s) :: e).
+(** the Deferred of call c (made by peer q) fires with r; its callback may call again *)
+Definition fire_result (q : bool) (c : nat) (r : res) (s : st) : st * list ev :=
+  if mem c (follows s) then let '(s1, e) := nested q s in (s1, EResult c r :: e) else (s, [EResult c r]).
 
 (** peer q receives box b: (state, events, q asked to close the connection) *)
 Definition deliver_box (q : bool) (b : box) (s : st) : st * list ev * bool :=
@@ -84,23 +105,35 @@ Definition deliver_box (q : bool) (b : box) (s : st) : st * list ev * bool :=
   | BCmd tag call Know => (emit q (BAns tag call) s, [EInvoke q call], false)
   | BCmd tag call Klater => (set_pending (pending s ++ [(q, tag, call)]) s, [EInvoke q call], false)
   | BCmd tag call Kdeclared => (emit q (BErr tag call EDeclared) s, [EInvoke q call], false)
+  | BCmd tag call Ksub => (emit q (BErr tag call EDeclared) s, [EInvoke q call], false)
+  | BCmd tag call Kfatal => (emit q (BErr tag call EFatal) s, [EInvoke q call], true)
   | BCmd tag call Kundeclared => (emit q (BErr tag call EUnknownFatal) s, [EInvoke q call], true)
   | BAns tag n =>
       match lookup tag (outs s q) with
-      | Some c => (set_outs q (remove_tag tag (outs s q)) s, [EResult c (ROk n)], false)
+      | Some c => let '(s1, e) := fire_result q c (ROk n) (set_outs q (remove_tag tag (outs s q)) s) in (s1, e, false)
       | None => (s, [], false)
       end
   | BErr tag n code =>
       match lookup tag (outs s q) with
-      | Some c => (set_outs q (remove_tag tag (outs s q)) s, [EResult c (res_of code)], false)
+      | Some c => let '(s1, e) := fire_result q c (res_of code) (set_outs q (remove_tag tag (outs s q)) s) in (s1, e, false)
       | None => (s, [], false)
       end
   end.
 
-(** connectionLost on both sides (A first): failAllOutgoing *)
+(** failAllOutgoing: the reason is recorded first, so a call made by an errback fails at once *)
+Fixpoint fail_all (l : list (nat * nat)) (fol : list nat) (n : nat) : list ev * nat :=
+  match l with
+  | [] => ([], n)
+  | (t, c) :: r =>
+      let '(e, n1) := if mem c fol then ([ENested n; EResult n RLost], S n) else ([], n) in
+      let '(e2, n2) := fail_all r fol n1 in
+      (EResult c RLost :: e ++ e2, n2)
+  end.
+
+(** connectionLost on both sides (A first) *)
 Definition lose (s : st) : st * list ev :=
-  (mk false (cntA s) (cntB s) [] [] [] [] (pending s) (ncalls s),
-   map (fun tc => EResult (snd tc) RLost) (outA s ++ outB s)).
+  let '(e, n) := fail_all (outA s ++ outB s) (follows s) (ncalls s) in
+  (mk false (cntA s) (cntB s) [] [] [] [] (pending s) n (follows s), e).
 
 (** peer p closes: deliver everything p has written (the other side's replies stay undelivered), then lose *)
 Fixpoint flush (p : bool) (l : list box) (s : st) : st * list ev :=
@@ -111,7 +144,7 @@ Fixpoint flush (p : bool) (l : list box) (s : st) : st * list ev :=
   end.
 Definition close_by (p : bool) (s : st) : st * list ev :=
   let '(s1, e1) := flush p (chan s p) (set_chan p [] s) in
-  let '(s2, e2) := lose s1 in (s2, e1 ++ e2).
+  let '(s2, e2) := lose s1 in (s2, e1 ++ EQuit :: e2).
 
 (** deliver the oldest box written by d *)
 Definition deliver_one (d : bool) (s : st) : st * list ev :=
@@ -141,13 +174,10 @@ Fixpoint remove_nth {A} (i : nat) (l : list A) : list A :=
 
 Definition step (s : st) (o : op) : st * list ev :=
   match o with
-  | OCall p k =>
-      let id := ncalls s in
-      let s0 := set_ncalls (S id) s in
-      if up s then
-        let tag := S (cnt s p) in
-        (emit p (BCmd tag id k) (set_outs p (outs s p ++ [(tag, id)]) (set_cnt p tag s0)), [])
-      else (s0, [EResult id RLost])
+  | OCall p k f =>
+      let s0 := if f then set_follows (ncalls s :: follows s) s else s in
+      if up s then place p k s0
+      else fire_result p (ncalls s) RLost (set_ncalls (S (ncalls s)) s0)
   | ODeliver d n => deliver_n d n s
   | OFire i o =>
       match nth_error (pending s) i with
@@ -157,7 +187,9 @@ Definition step (s : st) (o : op) : st * list ev :=
           if up s then
             match o with
             | Outok => (emit me (BAns tag call) s0, [EFire me call])
-            | Outdeclared => (emit me (BErr tag call EDeclared) s0, [EFire me call])
+            | Outdeclared | Outsub => (emit me (BErr tag call EDeclared) s0, [EFire me call])
+            | Outfatal =>
+                let '(s1, e1) := close_by me (emit me (BErr tag call EFatal) s0) in (s1, EFire me call :: e1)
             | Outundeclared =>
                 let '(s1, e1) := close_by me (emit me (BErr tag call EUnknownFatal) s0) in (s1, EFire me call :: e1)
             end
